@@ -3,20 +3,25 @@
 where the properties hold. usage: run_refactors.py <dir with rNN.diff> <out.md> [props...]"""
 import glob, os, re, subprocess, sys, time, json
 d, outp = sys.argv[1], sys.argv[2]
-props = sys.argv[3:] or ["C%02d" % i for i in range(1, 19)]
-env = dict(os.environ, VERIF_EVIDENCE_DIR="/tmp/verif-mutant-evidence")
+props = [a for a in sys.argv[3:] if re.fullmatch(r"C\d\d", a)] or ["C%02d" % i for i in range(1, 19)]
+only = [a for a in sys.argv[3:] if re.fullmatch(r"r\d\d", a)]          # restrict to these refactorings (sharding)
+VERIF_DIR = os.environ.get("SWEEP_VERIF", "/verif")                      # a private copy of /verif ...
+REPO_DIR = os.environ.get("SWEEP_REPO", "/repo")                         # ... and a private worktree of /repo
+env = dict(os.environ, VERIF_EVIDENCE_DIR="/tmp/verif-mutant-evidence-" + str(os.getpid()), VERIF_REPO=REPO_DIR)
 rows = []
 for diff in sorted(glob.glob(os.path.join(d, "r*.diff"))):
     name = os.path.basename(diff)[:-5]
-    if subprocess.run("git -C /repo status --porcelain", shell=True, capture_output=True, text=True).stdout.strip():
+    if only and name not in only:
+        continue
+    if subprocess.run("git -C " + REPO_DIR + " status --porcelain", shell=True, capture_output=True, text=True).stdout.strip():
         print("REPO NOT CLEAN"); sys.exit(2)
-    if subprocess.run(["git", "-C", "/repo", "apply", diff]).returncode != 0:
+    if subprocess.run(["git", "-C", REPO_DIR, "apply", diff]).returncode != 0:
         rows.append((name, "does not apply", "")); continue
     try:
         res = []
         for p in props:
             t0 = time.time()
-            r = subprocess.run(["./check", p, "--tier", "quick"], cwd="/verif", env=env, capture_output=True, text=True)
+            r = subprocess.run(["./check", p, "--tier", "quick"], cwd=VERIF_DIR, env=env, capture_output=True, text=True)
             vio = [l for l in r.stdout.splitlines() if l.startswith("VIOLATION")]
             if vio:
                 kind = "no-failing-input" if "no-failing-input-found" in vio[0] else "CONCRETE"
@@ -29,7 +34,7 @@ for diff in sorted(glob.glob(os.path.join(d, "r*.diff"))):
             print(name, p, "ALARM" if vio else "ok", int(time.time() - t0), flush=True)
         rows.append((name, "; ".join(res) if res else "no alarm", ""))
     finally:
-        subprocess.run("git -C /repo checkout -- . && git -C /repo clean -fdq", shell=True)
+        subprocess.run("git -C " + REPO_DIR + " checkout -- . && git -C " + REPO_DIR + " clean -fdq", shell=True)
 with open(outp, "w") as f:
     for r in rows:
         f.write(f"| {r[0]} | {r[1]} |\n")
